@@ -100,7 +100,7 @@ def classify_tool(rc, err):
     if rc < 0:
         return "signal", rc
     if "Lowering error in" in err:
-        return "lowering", re.findall(r"Lowering error in ([^:]*): (.*)", err)
+        return "lowering", re.findall(r"Lowering error in (.*?): (.*)", err)
     if "Found errors whilst generating" in err:
         return "gen_errors", err
     return "other", err[-500:]
